@@ -91,34 +91,70 @@ let first_diff (resolve : 'a -> 'b option) (eqb : 'b -> 'b -> bool) (side : 'b -
   in
   go 0 given demanded
 
-let finish (db_of : string -> database) (mname : string) (a : acc) =
+(* wirings of the current package, in source order *)
+let pkg_msgs : (string * acc * wiring option) list ref = ref []
+let pkg_nodes : ((z list * z) * string) list ref = ref []
+let pkg_dispatch : (z list option * string) list ref = ref []
+let pkg_failed = ref false
+let n_enum_lines = ref 0
+let n_pkg_lines = ref 0
+let n_enums = ref 0
+let pkg_enums : (enum * string) list ref = ref []
+let cur_enum : (enum * string) option ref = ref None
+let bytes_of_hex (h : string) : z list =
+  if String.length h mod 2 <> 0 then failwith ("bad hex " ^ h);
+  List.init (String.length h / 2) (fun i -> z_of_int ((hexval h.[2 * i] * 16) + hexval h.[(2 * i) + 1]))
+let rconst_of (v : string) : rconst = match v with "true" -> RBool true | "false" -> RBool false | v -> RInt (z_of_dec v)
+let enum_line (line : string) (toks : string list) =
+  incr n_enum_lines;
+  match toks, !cur_enum with
+  | "enum" :: t :: u :: _, _ when String.length u > 6 && String.sub u 0 6 = "under=" ->
+      cur_enum := Some ({ e_name = name_of_string t; e_under = name_of_string (kv toks "under"); e_consts = []; e_on_bool = false;
+                          e_cases = []; e_default = [] }, line)
+  | "enum" :: _ :: "const" :: cn :: rest, Some (e, l) ->
+      cur_enum := Some ({ e with e_consts = e.e_consts @ [ (name_of_string cn, rconst_of (kv rest "value")) ] }, l)
+  | "enum" :: _ :: "switch" :: rest, Some (e, l) -> cur_enum := Some ({ e with e_on_bool = (kv rest "on" = "bool(v)") }, l)
+  | "enum" :: _ :: "string" :: "default" :: rest, Some (e, l) -> cur_enum := Some ({ e with e_default = bytes_of_hex (kv rest "fmt") }, l)
+  | "enum" :: _ :: "string" :: rest, Some (e, l) ->
+      cur_enum := Some ({ e with e_cases = e.e_cases @ [ (rconst_of (kv rest "case"), bytes_of_hex (kv rest "text")) ] }, l)
+  | _ -> failwith ("unexpected enum line: " ^ line)
+
+let build_wiring (mname : string) (a : acc) : wiring option =
+  match a.a_bad, a.a_init, a.a_descmsg with
+  | None, Some (init, _), Some dm ->
+      Some { w_name = name_of_string mname; w_fields = List.rev_map fst a.a_fields; w_types = !typedecls; w_msg_index = dm;
+             w_descs = List.rev_map fst a.a_descs; w_init = init; w_frame = List.rev_map fst a.a_frame;
+             w_unmarshal = List.rev_map fst a.a_unm; w_reset = List.rev_map fst a.a_reset;
+             w_copy = a.a_copy && a.a_mf; w_setters = List.rev_map fst a.a_setters;
+             w_getters = List.rev_map fst a.a_getters }
+  | _ -> None
+
+let finish (_ : string -> database) (mname : string) (a : acc) =
   incr n_messages;
   n_statements := !n_statements + a.a_n;
-  let pkg = !cur_pkg in
-  let db = db_of pkg in
+  pkg_msgs := (mname, a, build_wiring mname a) :: !pkg_msgs
+
+(* DIAGNOSTICS ONLY (the verdict is package_wiring_ok_* / dispatch_ok below): which message, which statement *)
+let diagnose (db : database) (pkg : string) (mname : string) (a : acc) : bool =
   let rec find i = function
     | [] -> None
     | m :: tl -> if Gendb.string_of_bytes m.msg_name = mname then Some (i, m) else find (i + 1) tl in
   let label = Printf.sprintf "%s %s" pkg mname in
-  note_case "W" ("W " ^ label);
   match find 0 db.db_messages with
-  | None -> incr n_mismatch; Printf.printf "WIREBAD %s part=c03 || the generated package has a message type that the database does not declare\n" label
+  | None -> Printf.printf "WIREBAD %s part=decl || the generated package has a message type that the database does not declare\n" label; true
   | Some (mi, m) -> (
       match a.a_bad, a.a_init, a.a_descmsg with
       | Some line, _, _ ->
-          incr n_mismatch; Printf.printf "WIREBAD %s part=c03 || statement outside the wiring language: [%s]\n" label line
+          Printf.printf "WIREBAD %s part=decl || statement outside the wiring language: [%s]\n" label line; true
       | None, None, _ | None, _, None ->
-          incr n_mismatch; Printf.printf "WIREBAD %s part=c03 || frame header statement or md literal entry missing\n" label
+          Printf.printf "WIREBAD %s part=decl || frame header statement or md literal entry missing\n" label; true
       | None, Some (init, _), Some dm ->
-          let w = { w_fields = List.rev_map fst a.a_fields; w_types = !typedecls; w_msg_index = dm;
-                    w_descs = List.rev_map fst a.a_descs; w_init = init; w_frame = List.rev_map fst a.a_frame;
-                    w_unmarshal = List.rev_map fst a.a_unm; w_reset = List.rev_map fst a.a_reset;
-                    w_copy = a.a_copy && a.a_mf; w_setters = List.rev_map fst a.a_setters;
-                    w_getters = List.rev_map fst a.a_getters } in
+          let w = match build_wiring mname a with Some w -> w | None -> assert false in
+          let reported = ref false in
           let mnat = Z.to_nat (z_of_int mi) in
-          if wiring_ok_c03 mnat m w then incr n_ok_c03
+          if wiring_ok_c03 mnat m w then ()
           else begin
-            incr n_mismatch;
+            reported := true;
             let detail =
               if not (decls_ok mnat m w) then begin
                 let fl = List.rev a.a_fields and dl = List.rev a.a_descs in
@@ -153,9 +189,9 @@ let finish (db_of : string -> database) (mname : string) (a : acc) =
             in
             Printf.printf "WIREBAD %s part=%s || %s\n" label (if decls_ok mnat m w then "c03" else "decl") detail
           end;
-          if wiring_ok_c10 mnat m w then incr n_ok_c10
+          if wiring_ok_c10 mnat m w then ()
           else if decls_ok mnat m w then begin
-            incr n_mismatch;
+            reported := true;
             let z0 = Z.to_nat (z_of_int 0) in
             let detail =
               if not (reset_wiring_ok m w) then
@@ -167,7 +203,51 @@ let finish (db_of : string -> database) (mname : string) (a : acc) =
                 "getters: " ^ first_diff (resolve_getter w) rgetter_eqb (fun _ -> true) (List.rev a.a_getters) (demanded_getters m.msg_signals z0)
             in
             Printf.printf "WIREBAD %s part=c10 || %s\n" label detail
-          end)
+          end;
+          !reported)
+
+let finish_pkg (db_of : string -> database) =
+  let pkg = !cur_pkg in
+  if pkg <> "" && not !pkg_failed then begin
+    let db = db_of pkg in
+    let msgs = List.rev !pkg_msgs in
+    note_case "W" ("W " ^ pkg);
+    let all_built = List.for_all (fun (_, _, w) -> w <> None) msgs in
+    let p = { p_enums = List.rev_map fst !pkg_enums; p_wirings = List.filter_map (fun (_, _, w) -> w) msgs; p_nodes = List.rev_map fst !pkg_nodes;
+              p_dispatch = List.rev_map fst !pkg_dispatch } in
+    let oke = enums_ok db p in
+    let ok3 = oke && all_built && package_wiring_ok_c03 db p && dispatch_ok db p in
+    let ok10 = oke && all_built && package_wiring_ok_c10 db p in
+    if ok3 then n_ok_c03 := !n_ok_c03 + List.length msgs;
+    if ok10 then n_ok_c10 := !n_ok_c10 + List.length msgs;
+    if not (ok3 && ok10) then begin
+      incr n_mismatch;
+      let any = List.fold_left (fun acc (mname, a, _) -> diagnose db pkg mname a || acc) false msgs in
+      if not any then begin
+        let label = pkg ^ " (package)" in
+        let nm = List.length db.db_messages in
+        if not oke then begin
+          let bad = List.concat_map (fun m -> List.filter_map (fun sg ->
+              if has_custom_type sg && not (signal_enum_ok p.p_enums m sg) then Some (Gendb.string_of_bytes (enum_type_name m sg)) else None) m.msg_signals) db.db_messages in
+          match bad with
+          | t :: _ -> Printf.printf "WIREBAD %s part=decl || enum type %s (type, constants, String() cases or default format) is not the one the value descriptions demand: [%s]\n" label t
+                        (String.concat " | " (List.filter_map (fun (e, l) -> if Gendb.string_of_bytes e.e_name = t then Some l else None) !pkg_enums))
+          | [] -> Printf.printf "WIREBAD %s part=decl || the package declares an enum type that no signal with value descriptions demands\n" label
+        end
+        else if List.length msgs <> nm || not (no_extra_types db p.p_wirings)
+           || List.exists (fun m -> find_wiring m.msg_name p.p_wirings = None) db.db_messages then
+          Printf.printf "WIREBAD %s part=decl || the package declares %d message types for the %d messages of the database, or not exactly one per message name\n" label (List.length msgs) nm
+        else if not (nodes_ok db.db_nodes (z_of_int 0) p.p_nodes) then
+          Printf.printf "WIREBAD %s part=c03 || nd literal does not index the nodes of the database in order: [%s]\n" label
+            (String.concat " | " (List.rev_map snd !pkg_nodes))
+        else if not (dispatch_ok db p) then
+          Printf.printf "WIREBAD %s part=c03 || dispatcher MessagesDescriptor.UnmarshalFrame does not have one case per message in database order followed by default: [%s]\n" label
+            (String.concat " | " (List.rev_map snd !pkg_dispatch))
+        else Printf.printf "WIREBAD %s part=decl || package checker refused the package (no per-message difference found)\n" label
+      end
+    end
+  end;
+  pkg_msgs := []; pkg_nodes := []; pkg_dispatch := []; pkg_enums := []; cur_enum := None; pkg_failed := false
 
 (* returns true when the line belongs to the wiring stage *)
 let handle_wire (db_of : string -> database) (line : string) : bool =
@@ -179,8 +259,13 @@ let handle_wire (db_of : string -> database) (line : string) : bool =
         if a.a_bad = None then try f a with Bad_line why -> a.a_bad <- Some (line ^ " (" ^ why ^ ")") | Failure why -> a.a_bad <- Some (line ^ " (" ^ why ^ ")"))
     | _ -> failwith ("wiring line outside its message block: " ^ line) in
   match toks with
-  | [ "PKG"; p ] -> cur_pkg := p; typedecls := []; cur := None; Hashtbl.replace pkgs_seen p 0; true
-  | "WIREERR" :: _ -> incr n_extractor_errors; incr n_mismatch; print_endline line; true
+  | [ "PKG"; p ] -> finish_pkg db_of; cur_pkg := p; typedecls := []; cur := None; Hashtbl.replace pkgs_seen p 0; true
+  | "WIREERR" :: _ -> pkg_failed := true; incr n_extractor_errors; incr n_mismatch; print_endline line; true
+  | "node" :: n :: ni :: _ -> incr n_pkg_lines; pkg_nodes := ((name_of_string n, z_of_dec ni), line) :: !pkg_nodes; true
+  | "dispatch" :: "case" :: m :: _ -> incr n_pkg_lines; pkg_dispatch := (Some (name_of_string m), line) :: !pkg_dispatch; true
+  | "dispatch" :: "default" :: _ -> pkg_dispatch := (None, line) :: !pkg_dispatch; true
+  | "enum" :: _ -> enum_line line toks; true
+  | "end-enum" :: _ -> (match !cur_enum with Some el -> pkg_enums := el :: !pkg_enums; incr n_enums; cur_enum := None | None -> failwith "end-enum without enum"); true
   | [ "typedecl"; t; u ] -> typedecls := !typedecls @ [ (name_of_string t, name_of_string u) ]; true
   | [ "msg"; m ] -> cur := Some (m, fresh ()); true
   | "field" :: m :: f :: t :: _ -> with_msg m (fun a -> a.a_fields <- ((name_of_string f, name_of_string t), line) :: a.a_fields); true
@@ -226,7 +311,8 @@ let handle_wire (db_of : string -> database) (line : string) : bool =
       | _ -> failwith ("end without msg: " ^ line))
   | _ -> false
 
-let print_wire_stats () =
+let print_wire_stats (db_of : string -> database) =
+  finish_pkg db_of;
   if !n_messages > 0 || !n_extractor_errors > 0 then
-    Printf.printf "WIRE {\"packages\":%d,\"messages\":%d,\"statements\":%d,\"messages_ok_c03\":%d,\"messages_ok_c10\":%d,\"extractor_errors\":%d}\n"
-      (Hashtbl.length pkgs_seen) !n_messages !n_statements !n_ok_c03 !n_ok_c10 !n_extractor_errors
+    Printf.printf "WIRE {\"packages\":%d,\"messages\":%d,\"statements\":%d,\"messages_ok_c03\":%d,\"messages_ok_c10\":%d,\"extractor_errors\":%d,\"enum_types\":%d,\"package_lines\":%d}\n"
+      (Hashtbl.length pkgs_seen) !n_messages !n_statements !n_ok_c03 !n_ok_c10 !n_extractor_errors !n_enums (!n_enum_lines + !n_pkg_lines)
